@@ -123,6 +123,17 @@ def run(tier, seed):
             vlib.absorb_replay(v, o, "diff", dscen, crash_sig=lambda sc, t: "diff-under-yield/crash",
                                extra={"yield_per_mille": ypm, "gomaxprocs": procs})
             ycov["diff procs=%d yield=%d" % (procs, ypm)] = {"pairs": o.total, "ok": o.passed}
+        # `wrgl diff FILE1 FILE2 -n 8`: the command ingests both files into its in-memory store with its own worker
+        # pool and diffs them; tables of up to 18 blocks, under yields; the DIFF file must list the specification's sets
+        csl = dscen + ".cli"
+        with open(dscen) as f, open(csl, "w") as g:
+            lines = f.readlines()
+            stepc = max(1, len(lines) // (40 if tier == "quick" else 400))
+            g.writelines(lines[(seed % stepc)::stepc])
+        o = vlib.replay("diffcli", csl, timeout=180, env={"CLIDIFF_FILES": "1", "CLIDIFF_MULT": "3", "VERIF_YIELD": "300",
+                                                          "VERIF_SEED": str(seed), "GOMAXPROCS": "16"})
+        vlib.absorb_replay(v, o, "diffcli", csl, crash_sig=lambda sc, t: "diff-cli-files/crash", extra={"files": True, "mult": 3})
+        ycov["wrgl diff FILE FILE -n 8 under yields"] = {"pairs": o.total, "ok": o.passed}
     except ModuleNotFoundError:
         pass
     try:
@@ -202,12 +213,14 @@ def replay(path):
     with open(scen, "w") as f:
         f.write(json.dumps(doc["scenario"]) + "\n")
     bad = False
-    for attempt in range(10 if eng == "pool" else 3):   # schedules are sampled: repeat
+    for attempt in range(10 if eng in ("pool", "diffcli") else 3):   # schedules are sampled: repeat
         side = os.path.join(vlib.sub("traces"), "one.side")
         env = {}
         if eng == "diff":
             env = {"VERIF_YIELD": str(doc.get("yield_per_mille", 300)), "GOMAXPROCS": str(doc.get("gomaxprocs", 2)), "VERIF_SEED": str(attempt)}
-        out = vlib.replay(eng, scen, nshards=1, side_path=side, timeout=90, env=env)
+        if eng == "diffcli":
+            env = {"CLIDIFF_FILES": "1", "CLIDIFF_MULT": str(doc.get("mult", 3)), "VERIF_YIELD": "300", "GOMAXPROCS": "16", "VERIF_SEED": str(attempt)}
+        out = vlib.replay(eng, scen, nshards=1, side_path=side, timeout=180 if eng == "diffcli" else 90, env=env)
         if out.failures or out.crashes or out.timeouts:
             bad = True
             break
